@@ -18,7 +18,7 @@ TIERS = {
 REQUIRED_BUCKETS = ['ref:unevaluated', 'ref:evaluated', 'ref:scoped-evaluated', 'ref:scoped-unevaluated', 'ref:macro', 'ref:in-list', 'ref:in-tuple', 'ref:in-dict-value',
                     'ref:as-dict-key', 'ref:depth3', 'graph:nested-provider', 'graph:scoped-outer-unscoped-inner', 'ambient:depth0', 'ambient:depth2+',
                     'override:positional', 'override:keyword', 'override:none', 'calls:3+', 'mutation:applied', 'delivered-fn-called',
-                    'override:keyword-on-evaluated-ref', 'override:positional-on-evaluated-ref', 'history:scoped-reference-left-by-BaseException', 'parsed-inside-a-scope', 'override:keyword-on-varkw-parameter']
+                    'override:keyword-on-evaluated-ref', 'override:positional-on-evaluated-ref', 'history:scoped-reference-left-by-BaseException', 'parsed-inside-a-scope', 'override:keyword-on-varkw-parameter', 'special:target-reregistered', 'special:rebind-changes-only-the-scope']
 ORACLE_COUNTERS = ['oracle_evals', 'consumer_calls', 'provider_call_multisets_compared', 'mutation_snapshots_compared']
 _S = {}
 
@@ -34,6 +34,12 @@ def setup(ctx):
   from vf.checks import c01
   if 'c1.c1interrupt' not in gin.config._REGISTRY:
     c01.setup(ctx)
+  _register_tgt_a()
+
+  @gin.configurable('c4cons2', module='c4')
+  def cons2(x=None, y=None):
+    return (x, y)
+  _S['cons2'] = cons2
 
 
 # value trees: ['lit', v] | ['ref', prov, [scopes], evaluate] | ['macro', name] | ['list', items] | ['tuple', items] | ['dict', [[k, v]...]]
@@ -105,6 +111,11 @@ def tree_feats(t, depth=0, ctxk=None, out=None):
 
 def iter_cases(ctx, rng, n):
   for i in range(n):
+    if i % 25 == 11:
+      yield {'kind': 'special', 'which': rng.choice(['target-reregistered', 'rebind-changes-only-the-scope']), 'nest': rng.choice(['bare', 'list', 'dict', 'tuple-in-list']),
+             'via': rng.choice(['parse_config', 'bind_parameter']), 'scopes': rng.sample(['left', 'right', 'a/b', 'zz'], 2), 'drop_scope': rng.random() < 0.3,
+             'evaluate': rng.random() < 0.7}
+      continue
     nparams = rng.choice([1, 2, 3])
     spec = {'shape': rng.choice(['fn', 'fn', 'init']), 'api': rng.choice(['configurable', 'register', 'external']),
             'pos': ['p%d' % j for j in range(nparams)], 'dflt': [], 'varargs': False, 'kwonly': [], 'varkw': rng.random() < 0.35}
@@ -240,8 +251,87 @@ def mutate(v, depth=0):
   return n
 
 
+def _nest(nest, ref_text):
+  return {'bare': ref_text, 'list': '[1, %s]' % ref_text, 'dict': "{'k': %s}" % ref_text, 'tuple-in-list': '[(%s, 2)]' % ref_text}[nest]
+
+
+def _unnest(nest, v):
+  return {'bare': lambda: v, 'list': lambda: v[1], 'dict': lambda: v['k'], 'tuple-in-list': lambda: v[0][0]}[nest]()
+
+
+def run_special(ctx, case):
+  import gin
+  from gin import config as gc
+  gin.clear_config()
+  ctx.bucket('special:' + case['which'])
+  s1, s2 = case['scopes']
+  ev = '()' if case['evaluate'] else ''
+
+  def deliver():
+    got = _S['cons2']()
+    v = _unnest(case['nest'], got[0])
+    return v() if not case['evaluate'] else v       # an unevaluated reference delivers the (scoped) configurable: call it here
+
+  if case['which'] == 'rebind-changes-only-the-scope':
+    # two references that differ only in their scope are different values: re-binding must take effect
+    gin.parse_config('c4cons2.x = %s\n' % _nest(case['nest'], '@%s/c4tgt%s' % (s1, ev)))
+    first = deliver()
+    ctx.check(first == ('A', s1.split('/')), 'reference-ran-under-other-scope', 'x = %s delivered %r' % (_nest(case['nest'], '@%s/c4tgt%s' % (s1, ev)), first))
+    new_ref = '@c4tgt%s' % ev if case['drop_scope'] else '@%s/c4tgt%s' % (s2, ev)
+    want_scope = [] if case['drop_scope'] else s2.split('/')
+    if case['via'] == 'parse_config':
+      gin.parse_config('c4cons2.x = %s\n' % _nest(case['nest'], new_ref))
+    else:
+      gin.bind_parameter('c4cons2.x', gc.parse_value(_nest(case['nest'], new_ref)))
+    second = deliver()
+    ctx.check(second == ('A', want_scope), 'rebinding-to-reference-with-other-scope-ignored',
+              'x re-bound (%s) from %s to %s: the consumer received %r, expected the target run under %r' % (case['via'], '@%s/c4tgt%s' % (s1, ev), new_ref, second, want_scope))
+    q = repr(gin.query_parameter('c4cons2.x'))
+    ctx.check(new_ref in q, 'rebinding-to-reference-with-other-scope-ignored', 'query_parameter after the re-binding shows %s, expected %s inside' % (q, new_ref))
+    ctx.fp('special', case['which'], case['nest'], case['via'], case['drop_scope'], case['evaluate'])
+    return
+  # target-reregistered: references made after a configurable was registered again deliver the new registration, scoped or not
+  try:
+    text = 'c4cons2.x = %s\nc4cons2.y = %s\n' % (_nest(case['nest'], '@%s/c4tgt%s' % (s1, ev)), _nest(case['nest'], '@c4tgt%s' % ev))
+    gin.parse_config(text)
+    first = deliver()
+    ctx.check(first == ('A', s1.split('/')), 'reference-ran-under-other-scope', 'before re-registration: %r' % (first,))
+    with gc.interactive_mode():
+      @gin.configurable('c4tgt', module='c4')
+      def tgt_b():                      # registered again under the same name: a new implementation
+        return ('B', gin.current_scope())
+    if case['via'] == 'parse_config':
+      gin.parse_config(text)
+    else:
+      gin.bind_parameter('c4cons2.x', gc.parse_value(_nest(case['nest'], '@%s/c4tgt%s' % (s1, ev))))
+      gin.bind_parameter('c4cons2.y', gc.parse_value(_nest(case['nest'], '@c4tgt%s' % ev)))
+    got = _S['cons2']()
+    vx, vy = _unnest(case['nest'], got[0]), _unnest(case['nest'], got[1])
+    if not case['evaluate']:
+      vx, vy = vx(), vy()
+    ctx.check(vy == ('B', []), 'reference-delivers-stale-registration', 'unscoped reference made after the re-registration delivered %r' % (vy,))
+    ctx.check(vx == ('B', s1.split('/')), 'reference-delivers-stale-registration',
+              'scoped reference @%s/c4tgt%s made after the re-registration delivered %r, the unscoped one %r' % (s1, ev, vx, vy))
+    sg = gin.get_configurable('%s/c4tgt' % s1)()
+    ctx.check(sg == ('B', s1.split('/')), 'reference-delivers-stale-registration', "get_configurable('%s/c4tgt')() after the re-registration returned %r" % (s1, sg))
+    ctx.fp('special', case['which'], case['nest'], case['via'], case['evaluate'])
+  finally:
+    with gc.interactive_mode():
+      _register_tgt_a()
+
+
+def _register_tgt_a():
+  import gin
+
+  @gin.configurable('c4tgt', module='c4')
+  def tgt_a():
+    return ('A', gin.current_scope())
+
+
 def run_case(ctx, case):
   import gin
+  if case.get('kind') == 'special':
+    return run_special(ctx, case)
   gin.clear_config()
   spec = case['spec']
   p = probes.build(spec)
